@@ -4,7 +4,7 @@ use indicatif::{ProgressBar, ProgressDrawTarget, ProgressState, ProgressStyle};
 use std::fmt::Write as _;
 use std::panic::catch_unwind;
 
-fn fxs() -> String { let v = std::env::var("VERIF_FX").unwrap_or_default(); format!("FX={}", v) }
+fn fxs() -> String { format!("FX={}", crate::common::fx("tpl")) }
 
 fn classify(s: &str) -> String {
     let s2 = s.to_string();
